@@ -74,6 +74,7 @@ class Engine:
         self.n_forks = 0
         self.max_depth = 5000
         self.n_summaries = 0
+        self.lazy_tokens = False   # harness opt-in: rendered ints are never compared as text
         self.nested = 0
 
     # ---- solver helpers
@@ -230,9 +231,10 @@ class Engine:
         for zprev, tok in self.tokens:
             if zprev.eq(z):
                 return tok
-        for zprev, tok in self.tokens:
-            if self.branch(z == zprev):
-                return tok
+        if not self.lazy_tokens:
+            for zprev, tok in self.tokens:
+                if self.branch(z == zprev):
+                    return tok
         if z3.is_int_value(z):
             tok = str(z.as_long())
         else:
